@@ -75,3 +75,47 @@ pub fn panic_signature(msg: &str) -> String {
     }
     s.chars().take(48).collect()
 }
+
+// ---------------------------------------------------------------------------------------------
+// runaway guard
+
+static GUARD_CASE: std::sync::Mutex<String> = std::sync::Mutex::new(String::new());
+static GUARD_BASE: std::sync::atomic::AtomicUsize = std::sync::atomic::AtomicUsize::new(usize::MAX);
+
+/// Arms a monitor thread for computations that do not come back: a decoder iterating over a
+/// count it has not checked allocates on every iteration (boxed futures, elements) without
+/// ever growing its live memory. When more than `limit` allocation *requests* have been served
+/// since the current case began (a count, so that one huge reservation -- a different defect --
+/// does not trip it), `on_runaway(case json, requests)` is called on the monitor thread; it is
+/// expected to report and end the process. The criterion is a number of allocations, not a
+/// time: the verdict does not depend on how fast the machine is, only the moment it is noticed.
+pub fn arm_runaway_guard(limit: usize, on_runaway: fn(&str, usize)) {
+    static ONCE: std::sync::Once = std::sync::Once::new();
+    ONCE.call_once(|| {
+        std::thread::spawn(move || loop {
+            std::thread::sleep(std::time::Duration::from_millis(25));
+            let base = GUARD_BASE.load(std::sync::atomic::Ordering::Relaxed);
+            if base == usize::MAX {
+                continue;
+            }
+            let used = alloc::GLOBAL_ALLOCS.load(std::sync::atomic::Ordering::Relaxed).saturating_sub(base);
+            if used > limit {
+                let case = GUARD_CASE.lock().map(|c| c.clone()).unwrap_or_default();
+                on_runaway(&case, used);
+            }
+        });
+    });
+}
+
+/// Marks the beginning of a case for the runaway guard.
+pub fn guard_case(case_json: impl FnOnce() -> String) {
+    if let Ok(mut c) = GUARD_CASE.lock() {
+        *c = case_json();
+    }
+    GUARD_BASE.store(alloc::GLOBAL_ALLOCS.load(std::sync::atomic::Ordering::Relaxed), std::sync::atomic::Ordering::Relaxed);
+}
+
+/// No case is running (the harness's own bookkeeping may allocate freely).
+pub fn guard_idle() {
+    GUARD_BASE.store(usize::MAX, std::sync::atomic::Ordering::Relaxed);
+}
